@@ -162,6 +162,9 @@ func runCase(c Case, r *runlog.R) error {
 			return fmt.Errorf("field %q: got %s, want %s", k, canon.Show(got), canon.Show(want))
 		}
 		r.Class("acyclic read compared with the model")
+		if err := moreReads(cfg, k, want, opts, r); err != nil {
+			return err
+		}
 	}
 	// all settings at once into one struct: sibling fields are evaluated independently of each other, so a
 	// variable used by two fields (or reached by two fields along different paths) is no cycle
@@ -195,6 +198,78 @@ func runCase(c Case, r *runlog.R) error {
 	}
 	r.ClassIf(anyCycle, "case has a cycle")
 	r.NonTrivialIf(nt)
+	return nil
+}
+
+type node struct {
+	Name string `config:"x"`
+	Next *node  `config:"y"`
+	Sub  []node `config:"l"`
+}
+
+// moreReads: a field whose evaluation never re-enters a reference is read in further ways; none of them may
+// report a cyclic reference (the same evaluation, only repeated or spread over list elements).
+func moreReads(cfg *ucfg.Config, k string, want interface{}, opts []ucfg.Option, r *runlog.R) error {
+	noCycle := func(what string, err error) error {
+		if err != nil && vx.IsCyclic(err) {
+			return fmt.Errorf("field %q never re-enters a reference, but %s reported a cyclic reference: %v", k, what, err)
+		}
+		return vx.Typed(what, err)
+	}
+	// by index: index 0 of a primitive is the primitive, index i of a list its element
+	for _, idx := range []int{0, 1} {
+		var err error
+		if e := uc.Safe("String idx", func() error { _, err = cfg.String(k, idx, opts...); return nil }); e != nil {
+			return e
+		}
+		if e := noCycle(fmt.Sprintf("String(%q, %d)", k, idx), err); e != nil {
+			return e
+		}
+		if e := uc.Safe("Child idx", func() error { _, err = cfg.Child(k, idx, opts...); return nil }); e != nil {
+			return e
+		}
+		if e := noCycle(fmt.Sprintf("Child(%q, %d)", k, idx), err); e != nil {
+			return e
+		}
+	}
+	switch x := want.(type) {
+	case []interface{}:
+		// typed list targets evaluate the elements one after the other
+		typ := reflect.StructOf([]reflect.StructField{{Name: "V", Type: reflect.TypeOf([]string(nil)), Tag: reflect.StructTag(fmt.Sprintf(`config:"%s"`, k))}})
+		out := reflect.New(typ)
+		err := uc.Safe("Unpack", func() error { return cfg.Unpack(out.Interface(), opts...) })
+		if e := noCycle("Unpack into a []string field", err); e != nil {
+			return e
+		}
+		// (whether text that parses into a list can be unpacked into a typed list through more than one reference is
+		// not stated: only the absence of a false cycle is asserted)
+		var ai [2]interface{}
+		aout := reflect.New(reflect.StructOf([]reflect.StructField{{Name: "V", Type: reflect.TypeOf(ai), Tag: reflect.StructTag(fmt.Sprintf(`config:"%s"`, k))}}))
+		err = uc.Safe("Unpack", func() error { return cfg.Unpack(aout.Interface(), opts...) })
+		if e := noCycle("Unpack into a [2]interface{} field", err); e != nil {
+			return e
+		}
+		r.Class("list read into typed targets")
+	case map[string]interface{}:
+		// typed map and struct targets, paths through the setting
+		typ := reflect.StructOf([]reflect.StructField{{Name: "V", Type: reflect.TypeOf(map[string]interface{}(nil)), Tag: reflect.StructTag(fmt.Sprintf(`config:"%s"`, k))},
+			{Name: "N", Type: reflect.TypeOf(node{}), Tag: reflect.StructTag(fmt.Sprintf(`config:"%s"`, k))}})
+		out := reflect.New(typ)
+		err := uc.Safe("Unpack", func() error { return cfg.Unpack(out.Interface(), opts...) })
+		if e := noCycle("Unpack into map and struct fields", err); e != nil {
+			return e
+		}
+		for sub := range x {
+			var gerr error
+			if e := uc.Safe("String path", func() error { _, gerr = cfg.String(k+"."+sub, -1, opts...); return nil }); e != nil {
+				return e
+			}
+			if e := noCycle(fmt.Sprintf("String(%q)", k+"."+sub), gerr); e != nil {
+				return e
+			}
+		}
+		r.Class("object read into typed targets and through paths")
+	}
 	return nil
 }
 
@@ -325,5 +400,134 @@ var subCycles = runlog.Register(&runlog.Sub[Case]{
 })
 
 func TestReferenceGraphs(t *testing.T) { subCycles.Check(t, 60000, 3000000) }
+
+// ---------------------------------------------------------------------------
+// wild graphs: termination only
+
+var wildNames = []string{"a", "b", "c", "o", "o.x", "l", "l.0", "a.x", "a.y", "a.0", "b.x", "b.k.j", "c.0.x", "o.x.y", "o.x.0", "l.0.x", "l.1.0", "d.o.x", "a.o.x", "a.l.0", "a.a"}
+
+func genWild(t *rapid.T) Case {
+	g := &vx.GCfg{Depth: runlog.Pick(2, 3), Names: wildNames}
+	c := Case{Root: g.GenRoot(t)}
+	if rapid.IntRange(0, 3).Draw(t, "recursive") == 0 {
+		// an object that contains a reference to itself or to a setting that leads back to it: unpacked into a
+		// recursive struct type this must end in a cyclic-reference error, not in unbounded recursion
+		ref := func(n string) *vx.Node {
+			return &vx.Node{K: "expr", Expr: []vx.Part{{IsVar: true, Name: []vx.Part{{Lit: n}}}}}
+		}
+		o := &vx.Node{K: "obj"}
+		o.Put("x", g.GenLeaf(t, true))
+		o.Put("y", ref(rapid.SampledFrom([]string{"o", "a", "b", "l.0", "o.y"}).Draw(t, "back")))
+		c.Root.Put("o", o)
+		c.Root.Put("a", ref(rapid.SampledFrom([]string{"o", "b", "l.0"}).Draw(t, "a")))
+		c.Root.Put("b", ref(rapid.SampledFrom([]string{"o", "a", "l"}).Draw(t, "b")))
+		c.Root.Put("l", &vx.Node{K: "list", Vals: []*vx.Node{ref(rapid.SampledFrom([]string{"o", "a", "l"}).Draw(t, "l0")), g.GenLeaf(t, true)}})
+	}
+	if rapid.IntRange(0, 3).Draw(t, "env") == 0 {
+		c.Envs = append(c.Envs, g.GenEnv(t))
+	}
+	if rapid.IntRange(0, 3).Draw(t, "res") == 0 {
+		c.Resolvers = append(c.Resolvers, g.GenResolver(t))
+	}
+	return c
+}
+
+type wildTarget struct {
+	A  node                   `config:"a"`
+	B  *node                  `config:"b"`
+	C  []string               `config:"c"`
+	D  map[string]string      `config:"d"`
+	O  map[string]*node       `config:"o"`
+	L  []node                 `config:"l"`
+	A2 [2]interface{}         `config:"a"`
+	O2 map[string]interface{} `config:"o"`
+	L2 []map[string][]string  `config:"l"`
+}
+
+func runWild(c Case, r *runlog.R) error {
+	opts, err := vx.Options(c.Envs, c.Resolvers)
+	if err != nil {
+		return err
+	}
+	var cfg *ucfg.Config
+	if err := uc.Safe("NewFrom", func() (e error) { cfg, e = ucfg.NewFrom(c.Root.Go(), opts...); return }); err != nil {
+		return fmt.Errorf("NewFrom failed: %v", err)
+	}
+	var first error
+	errs := 0
+	note := func(what string, err error) {
+		if err != nil {
+			errs++
+		}
+		if first == nil {
+			first = vx.Typed(what, err)
+		}
+	}
+	e := uc.Safe("read entry points", func() error {
+		for _, k := range append([]string{"d", "zz"}, wildNames...) {
+			for _, idx := range []int{-1, 0, 1} {
+				_, err := cfg.String(k, idx, opts...)
+				note("String", err)
+				_, err = cfg.Int(k, idx, opts...)
+				note("Int", err)
+				_, err = cfg.Child(k, idx, opts...)
+				note("Child", err)
+				_, err = cfg.Has(k, idx, opts...)
+				note("Has", err)
+			}
+			_, err := cfg.Bool(k, -1, opts...)
+			note("Bool", err)
+			_, err = cfg.Float(k, -1, opts...)
+			note("Float", err)
+			_, err = cfg.Uint(k, -1, opts...)
+			note("Uint", err)
+			_, err = cfg.CountField(k, opts...)
+			note("CountField", err)
+		}
+		var m map[string]interface{}
+		note("Unpack map", cfg.Unpack(&m, opts...))
+		var wt wildTarget
+		note("Unpack typed", cfg.Unpack(&wt, opts...))
+		note("Unpack typed again", cfg.Unpack(&wt, opts...))
+		var n node
+		note("Unpack node", cfg.Unpack(&n, opts...))
+		var ms map[string][]string
+		note("Unpack map of lists", cfg.Unpack(&ms, opts...))
+		d := ucfg.New()
+		note("Merge", d.Merge(cfg, opts...))
+		note("Merge append", d.Merge(cfg, append([]ucfg.Option{ucfg.AppendValues}, opts...)...))
+		cfg.FlattenedKeys(opts...)
+		d.FlattenedKeys(opts...)
+		diff.CompareConfigs(cfg, d, opts...)
+		if ch, err := cfg.Child("o", -1, opts...); err == nil {
+			ch.FlattenedKeys(opts...)
+			var m2 map[string]interface{}
+			note("Unpack child", ch.Unpack(&m2, opts...))
+		}
+		return nil
+	})
+	if e != nil {
+		return e
+	}
+	if first != nil {
+		return first
+	}
+	through := c.Root.AnyPart(func(p *vx.Part) bool {
+		return p.IsVar && len(p.Name) == 1 && !p.Name[0].IsVar && (len(p.Name[0].Lit) > 3 || p.Name[0].Lit == "a.x" || p.Name[0].Lit == "a.y" || p.Name[0].Lit == "a.0" || p.Name[0].Lit == "b.x" || p.Name[0].Lit == "a.a")
+	})
+	r.NonTrivialIf(through && errs > 0)
+	r.ClassIf(through, "a name leads through a setting that may itself be a reference")
+	return nil
+}
+
+var subWild = runlog.Register(&runlog.Sub[Case]{
+	Name:    "wild-graphs",
+	Rule:    "reference graphs whose names may lead THROUGH settings that are themselves references or spliced text (a.x, a.0, b.k.j, o.x.y, l.0.x, a.o.x ... where a, b, o.x, l.0 may be expressions), read through every getter with idx -1/0/1, Child, Has, CountField, Unpack into generic, typed and RECURSIVE struct targets (twice), typed lists and maps (a quarter of the cases plant an object that refers back to itself directly or through other settings), use as merge source, FlattenedKeys, CompareConfigs and child handles. Oracle: every call returns (journal + watchdog + small maximal stack catch runaway recursion) and every error is typed; values are not compared (no model of lookups through evaluated values). Non-trivial: some name leads through a setting that may be a reference and at least one call returned an error. Distinct: hash of the case.",
+	Gen:     genWild,
+	Run:     runWild,
+	Journal: true,
+})
+
+func TestWildGraphs(t *testing.T) { subWild.Check(t, 20000, 1500000) }
 
 func TestReplay(t *testing.T) { runlog.ReplayMain(t) }
